@@ -24,7 +24,14 @@ def run_one(patch):
         # fresh mtimes: the target dir is shared between scratch copies and cargo's freshness test is mtime-based
         subprocess.run(["find", d, "-name", "*.rs", "-exec", "touch", "{}", "+"], check=True)
         env = dict(os.environ, CARGO_TARGET_DIR=t, CARGO_NET_OFFLINE="true")
-        r = subprocess.run(["cargo", "test", "--workspace", "--offline", "--no-fail-fast"], cwd=d, env=env, stdout=subprocess.PIPE, stderr=subprocess.STDOUT, text=True)
+        try:
+            r = subprocess.run(["timeout", "-k", "10", "900", "cargo", "test", "--workspace", "--offline", "--no-fail-fast"], cwd=d, env=env, stdout=subprocess.PIPE, stderr=subprocess.STDOUT, text=True)
+        except Exception as e:      # pragma: no cover
+            return {"patch": os.path.relpath(patch, V), "applied": True, "compiles": None, "passed": 0, "failed": 0, "failing": [], "error": str(e)}
+        if r.returncode in (124, 137):
+            # a test of the repository's suite never finishes with this variant: the suite does not pass
+            subprocess.run(["pkill", "-9", "-f", t + "/debug/deps/"], stdout=subprocess.DEVNULL, stderr=subprocess.DEVNULL)
+            return {"patch": os.path.relpath(patch, V), "applied": True, "compiles": True, "passed": 0, "failed": 1, "failing": ["<suite hangs (15 min timeout)>"]}
         passed = sum(int(x) for x in re.findall(r"test result: \w+\. (\d+) passed", r.stdout))
         failed = sum(int(x) for x in re.findall(r"test result: \w+\. \d+ passed; (\d+) failed", r.stdout))
         compiled = "error: could not compile" not in r.stdout
